@@ -1394,7 +1394,8 @@ func (s *session) barrier() {
 			}
 		}
 	}
-	ok := hx.WaitFor(6*time.Second, func() bool {
+	s.env.Log.Add(evlog.Rec{K: "ctl.barrier", VB: -1})
+	reached := func() bool {
 		got := map[int]uint64{}
 		gotT := map[int]uint64{}
 		for _, e := range s.cons.Events() {
@@ -1416,9 +1417,16 @@ func (s *session) barrier() {
 			}
 		}
 		return true
-	})
+	}
+	ok := hx.WaitFor(6*time.Second, reached)
+	if !ok {
+		// second chance: a loaded machine may stall a client for seconds; what is still missing after 16 s on open, idle
+		// streams is not going to arrive
+		ok = hx.WaitFor(10*time.Second, reached)
+	}
 	if !ok {
 		s.tr.BarrierTimeouts++
+		s.env.Log.Add(evlog.Rec{K: "ctl.barrier.timeout", VB: -1})
 	}
 	hx.WaitQuiet(s.env.Log, 8*time.Millisecond, 2*time.Second, func(r evlog.Rec) bool {
 		return r.K == "sim.rx.ack" || r.Op == cbsim.OpNoop || r.Op == cbsim.OpGetClusterCfg || r.K == "sim.http"
